@@ -54,11 +54,16 @@ pub fn c03_sequence_direct_three_collects() {
     history!(0, 3, 0, 0, 3, 4, 5, 3);
     vcover!(true, "end of harness reached");
 }
-/// Batches: local obs x2, collect (batch not visible), flush, collect, obs, local obs, flush,
-/// collect, collect.
+/// Batch: local obs x2, collect (batch not visible), flush, collect (batch visible as a whole).
 #[cfg_attr(kani, kani::proof, kani::unwind(4))]
-pub fn c03_sequence_batches_three_collects() {
-    history!(1, 1, 3, 2, 3, 0, 1, 2, 3, 3);
+pub fn c03_sequence_batch_visible_after_flush() {
+    history!(1, 1, 3, 2, 3);
+    vcover!(true, "end of harness reached");
+}
+/// Mixed: obs, local obs, collect, flush, collect, collect (third collection reuses the first shard).
+#[cfg_attr(kani, kani::proof, kani::unwind(4))]
+pub fn c03_sequence_mixed_three_collects() {
+    history!(0, 1, 3, 2, 3, 3);
     vcover!(true, "end of harness reached");
 }
 /// Empty flush and getters between collects: flush, collect, obs, sum, collect, local obs, count,
@@ -91,7 +96,8 @@ pub fn c03_quiescent_collect_returns_immediately() {
 pub fn dispatch(name: &str) -> Option<fn()> {
     Some(match name {
         "c03_sequence_direct_three_collects" => c03_sequence_direct_three_collects,
-        "c03_sequence_batches_three_collects" => c03_sequence_batches_three_collects,
+        "c03_sequence_batch_visible_after_flush" => c03_sequence_batch_visible_after_flush,
+        "c03_sequence_mixed_three_collects" => c03_sequence_mixed_three_collects,
         "c03_sequence_empty_flush_and_getters" => c03_sequence_empty_flush_and_getters,
         "c03_quiescent_collect_returns_immediately" => c03_quiescent_collect_returns_immediately,
         _ => return None,
